@@ -16,7 +16,7 @@ s = runner.Session(flavor, feats)
 t0 = time.time()
 if name in props.SPECS:
     r = conc.run_conc(s, props.SPECS[name], loop_bound=int(os.environ.get('LOOP_BOUND', '3')),
-                      timeout_s=int(os.environ.get('TIMEOUT_S', '600')))
+                      timeout_s=int(os.environ.get('TIMEOUT_S', '600')), hb=bool(os.environ.get('HB')))
 else:
     r = s.run_seq(name)
 print({k: v for k, v in r.items() if k not in ('engine', 'violations', 'sample', 'leaves')}, round(time.time() - t0, 1))
